@@ -203,6 +203,8 @@ pub struct Violation {
 
 struct Shared {
     stop: AtomicBool,
+    /// the process grew past the memory budget: the remaining generated cases are skipped (and counted)
+    mem_stop: AtomicBool,
     violation: Mutex<Option<Violation>>,
     enabled: HashSet<String>,
 }
@@ -326,9 +328,22 @@ fn shard_main<P: Prop>(prop: &P, tier: Tier, seed: u64, shard: usize, nshards: u
                 let res = {
                     let st_cell = std::cell::RefCell::new(&mut st);
                     let exec_cell = std::cell::RefCell::new(&mut exec);
+                    let counter = std::cell::Cell::new(0u64);
                     runner.run(&strategy, |case| {
                         if !failed.get() && sh.stop.load(Ordering::Relaxed) {
                             return Ok(());
+                        }
+                        if !failed.get() {
+                            // rsass leaks a little per compilation (reference cycles); a long in-process run must not
+                            // take the machine down: past the budget the remaining cases are skipped and counted
+                            counter.set(counter.get() + 1);
+                            if shard == 0 && counter.get() % 512 == 0 && rss_gib() > max_rss_gib() {
+                                sh.mem_stop.store(true, Ordering::Relaxed);
+                            }
+                            if sh.mem_stop.load(Ordering::Relaxed) {
+                                *st_cell.borrow_mut().discards.entry("resource: memory budget of the check process reached (VERIF_MAX_RSS_GB), case skipped".to_string()).or_default() += 1;
+                                return Ok(());
+                            }
                         }
                         let v = exec_cell.borrow_mut().run(&case);
                         if !failed.get() {
@@ -376,6 +391,13 @@ fn shard_main<P: Prop>(prop: &P, tier: Tier, seed: u64, shard: usize, nshards: u
         }
     }
     (st, exhaustive_flags)
+}
+
+fn rss_gib() -> f64 {
+    std::fs::read_to_string("/proc/self/statm").ok().and_then(|t| t.split_whitespace().nth(1).and_then(|p| p.parse::<f64>().ok())).map(|pages| pages * 4096.0 / (1u64 << 30) as f64).unwrap_or(0.0)
+}
+fn max_rss_gib() -> f64 {
+    std::env::var("VERIF_MAX_RSS_GB").ok().and_then(|s| s.parse().ok()).unwrap_or(24.0)
 }
 
 fn write_replay(prop: &str, seed: u64, tier: &str, v: &Violation) -> String {
@@ -473,7 +495,7 @@ pub fn main_check<P: Prop>(tier: Tier) -> i32 {
     }
     let mut exhaustive = false;
     if violation.is_none() {
-        let sh = Shared { stop: AtomicBool::new(false), violation: Mutex::new(None), enabled };
+        let sh = Shared { stop: AtomicBool::new(false), mem_stop: AtomicBool::new(false), violation: Mutex::new(None), enabled };
         let n = threads();
         let results: Vec<(Stats, Vec<bool>)> = std::thread::scope(|s| {
             let hs: Vec<_> = (0..n)
@@ -549,7 +571,7 @@ pub fn main_check<P: Prop>(tier: Tier) -> i32 {
         if code == 0 { "held" } else { "VIOLATED" }
     );
     let harness_bugs: u64 = total.discards.iter().filter(|(k, _)| k.contains("HARNESS PANIC")).map(|(_, v)| *v).sum();
-    let resource: u64 = total.discards.iter().filter(|(k, _)| k.contains("timeout") || k.contains("out of memory") || k.contains("worker")).map(|(_, v)| *v).sum();
+    let resource: u64 = total.discards.iter().filter(|(k, _)| k.contains("timeout") || k.contains("out of memory") || k.contains("worker") || k.starts_with("resource:")).map(|(_, v)| *v).sum();
     if code == 0 && harness_bugs > 0 {
         for (k, v) in total.discards.iter().filter(|(k, _)| k.contains("HARNESS PANIC")) {
             println!("{v}x {k}");
@@ -557,7 +579,9 @@ pub fn main_check<P: Prop>(tier: Tier) -> i32 {
         println!("inconclusive: the harness itself panicked on {harness_bugs} case(s)");
         return 2;
     }
-    if code == 0 && total.evaluations > 0 && resource * 20 > total.evaluations {
+    // (cases skipped for the memory budget are not evaluations, so compare with what was planned)
+    let planned = total.evaluations + total.discards.iter().filter(|(k, _)| k.starts_with("resource: memory budget")).map(|(_, v)| *v).sum::<u64>();
+    if code == 0 && planned > 0 && resource * 20 > planned {
         println!("inconclusive: more than 5% of the cases hit the watchdog or a resource limit");
         return 2;
     }
